@@ -209,6 +209,29 @@ func loadProgram(repo string, contracts map[string]*ContractFile, pkgPaths []str
 				prog.byName[obj.FullName()] = fc
 			}
 		}
+		// methods of interface types have no declaration with a body: register their (assumed) contracts too
+		for key, fc := range cf.Funcs {
+			if !strings.HasPrefix(key, "(") {
+				continue
+			}
+			i := strings.Index(key, ").")
+			if i < 0 {
+				continue
+			}
+			tn, ok := p.Types.Scope().Lookup(key[1:i]).(*types.TypeName)
+			if !ok {
+				continue
+			}
+			iface, ok := tn.Type().Underlying().(*types.Interface)
+			if !ok {
+				continue
+			}
+			for m := 0; m < iface.NumMethods(); m++ {
+				if iface.Method(m).Name() == key[i+2:] {
+					prog.byName[iface.Method(m).FullName()] = fc
+				}
+			}
+		}
 	}
 	return prog, nil
 }
